@@ -109,7 +109,10 @@ def generate(rng, tier):
                 if unws[u] and rng.chance(2, 3):
                     st = rng.choice(sorted(unws[u]))
                 else:
-                    st = rng.choice([5, 0x1234567, M64 - 1] + [c0[0] + 1 for c0 in cands])
+                    # unknown starts: arbitrary values, and every other address that identifies a registered image to
+                    # its owner (its base address when that is not the start of the range, its end, its last byte)
+                    own = [x for m in unws[u].values() for x in (mods[m]["base"], mods[m]["end"], mods[m]["end"] - 1)]
+                    st = rng.choice([5, 0x1234567, M64 - 1] + [c0[0] + 1 for c0 in cands] + own + own)
                     if st in unws[u]:
                         continue
                 ln = s.add("remove %s %s" % (u, hx(st)))
